@@ -23,7 +23,7 @@ PROPS["C19"] = prop(
     [Unit("TestC19Query", _C19_MAIN, quick=75000, thorough=1250000, shards_quick=4, shards_thorough=16, fuzz="FuzzC19Query", fuzztime=60),
      Unit("TestC19NormalizeTags", _C19_MAIN, quick=50000, thorough=1000000, shards_quick=2, shards_thorough=8, fuzz="FuzzC19NormalizeTags", fuzztime=60),
      Unit("TestC19RestrictedTags", _C19_MAIN, quick=50000, thorough=1000000, shards_quick=2, shards_thorough=8),
-     Unit("TestC19WTagsAndSearch", _C19_MAIN, quick=1000, thorough=50000, shards_quick=8, shards_thorough=16, timeout_quick=300),
+     Unit("TestC19WTagsAndSearch", _C19_MAIN, quick=1000, thorough=20000, shards_quick=8, shards_thorough=16, timeout_quick=300),
      ],
     ["quoted terms: whether a literal term is also rewritten (e-mail/phone/login) is not stated; both are accepted",
      "fnd.private queries: docs say only the rewritten term is kept, the code keeps original+rewritten; both are accepted and the case is counted (note:private-query-keeps-original)",
